@@ -16,7 +16,7 @@ def run(res, tier, rng):
     from ural import canonicalize_url
 
     urls = ["https://bc.marfeelcache.com/amp/www.lemonde.fr/article/1.html", "bc.marfeel.com/m.lefigaro.fr/actu", "https://www-x-com.cdn.ampproject.org/c/s/www.x.com/a", "fr-FR.facebook.com/a", "https://WWW.Lemonde.FR:8080/x", " http://m.x.com \n", "http://r.com/?url=http%3A%2F%2Fwww.t.co.uk%2Fp", "http://xn--caf-dma.fr/", "amp-x.com"]
-    hosts = ["fr-FR.facebook.com", "www.lemonde.fr", "M.X.COM", "fr.wikipedia.org", "xn--caf-dma.fr", "a.b.co.uk", "amp-x.com", "en-gb.example.co.uk", "us.x.com", "x.com", " www.x.com "]
+    hosts = ["fr-FR.facebook.com", "www.lemonde.fr", "M.X.COM", "fr.wikipedia.org", "xn--caf-dma.fr", "a.b.co.uk", "amp-x.com", "en-gb.example.co.uk", "us.x.com", "x.com", " www.x.com ", "\x00 www.lemonde.fr", " \x7fm.x.com\x00 ", "\x1b\tfr.www.x.com"]
     for _ in range(2500 if tier == "quick" else 40000):
         u = gen_url(rng)
         r = rng.random()
@@ -91,16 +91,21 @@ def run(res, tier, rng):
                         hits.setdefault("F-C10", "a protocol without colon: %s(%r) are not the stems of the url %r the variant returns" % (stems_fn.__name__, u, r))
                         continue
                     res.violation("property", "%s(u) are not the stems of %s(u)" % (stems_fn.__name__, fn.__name__), input=dict(url=u, suffix_aware=sa), impl=[stc, st2, r])
+    import re as _re
+    _ctl = _re.compile("[\x00-\x1f\x7f-\x9f]")
     for h in hosts:
         res.evaluations += 1
+        # the hostname as a url: on its own when it comes inside control characters (they are cleaned around a url, not
+        # inside one), else with a scheme and a path
+        uform = h if _ctl.search(h) else "http://" + h.strip() + "/x"
         a = call(normalize_hostname, h)
-        b = call(get_normalized_hostname, "http://" + h.strip() + "/x")
+        b = call(get_normalized_hostname, uform)
         if a != b:
             res.violation("property", "normalize_hostname(h) differs from get_normalized_hostname of a url on h", input=dict(hostname=h), impl=[a, b])
         for ss in (False, True):
             a = call(fingerprint_hostname, h, strip_suffix=ss)
-            b = call(get_fingerprinted_hostname, "http://" + h.strip() + "/x", strip_suffix=ss)
-            sp = call(fingerprint_url, "http://" + h.strip() + "/x", strip_suffix=ss, unsplit=False)
+            b = call(get_fingerprinted_hostname, uform, strip_suffix=ss)
+            sp = call(fingerprint_url, uform, strip_suffix=ss, unsplit=False)
             c = sp.hostname if not isinstance(sp, Exc) else sp
             if not ((a or None) == (b or None) == (c or None)):
                 res.violation("property", "fingerprint_hostname / get_fingerprinted_hostname / fingerprint_url disagree on the host", input=dict(hostname=h, strip_suffix=ss), impl=[a, b, c])
